@@ -216,6 +216,7 @@ def rule_strictness(ctx):
             ctx.note(f"{c.name}: no format line in the docstring")
             continue
         lens_doc = {len(f) for f in fmts}
+        _payload_shape_cells(ctx, m, c, fmts)
         # accepted lengths
         lens = set()
         for rs in ret_states:
@@ -244,6 +245,113 @@ def rule_strictness(ctx):
                 elif typ == "dict" and name in ("Options", "Details"):
                     ctx.ob(f"{c.name}.parse: position {i} ({name}|dict) goes through check_or_raise_extra", "check_or_raise_extra" in calls.get(i, set()),
                            f"wmsg[{i}] ({name}) not validated as a str-keyed dict", fn.loc())
+
+
+def parse_on(ctx, m, c, wmsg, rule_tag="C08.3-strictness"):
+    """Abstract evaluation (sa.core.tiny) of `c.parse` on the raw message `wmsg`: (outcome, [constructor arguments by name])."""
+    from ..core.tiny import Tiny, Sym
+    fn = c.methods["parse"]
+    prm = fn.params()
+    body = [s_ for s_ in fn.node.body if not (isinstance(s_, ast.Expr) and isinstance(s_.value, ast.Constant))]
+    env = {}
+    for k_ in m.classes.values():
+        try:
+            env[f"{k_.name}.MESSAGE_TYPE"] = ctx.program.class_const(k_, "MESSAGE_TYPE")
+        except KeyError:
+            pass
+    made = []
+
+    def oracle(fname, args, kwargs=None):
+        if fname.startswith("check_or_raise_"):
+            return args[0]
+        if fname.startswith("is_valid_"):
+            return True
+        if fname == c.name:
+            names = c.methods["__init__"].params()[1:]
+            b_ = dict(zip(names, args))
+            b_.update(kwargs or {})
+            made.append(b_)
+            return Sym("message")
+        return Sym(f"<{fname}>")
+    env[prm[0]] = list(wmsg)
+    try:
+        r = Tiny(env, default_call=oracle, model_types=True, model_strings=True, opaque_globals=True).run(body)
+    except AnalysisError as e:
+        raise AnalysisError(f"[{rule_tag}] {c.name}.parse outside the modelled subset: {e}")
+    return r, made
+
+
+def doc_prefix(ctx, m, c, fmts):
+    """the documented fixed prefix of the message as model values"""
+    base = min(fmts, key=len)
+    vals = {"id": 7, "uri": "com.x.y", "string": "abc"}
+    prefix = [ctx.program.class_const(c, "MESSAGE_TYPE")]
+    for part in base[1:]:
+        typ = part.split("|", 1)[1].strip() if "|" in part else "?"
+        if typ == "int":
+            prefix.append(ctx.program.class_const(m.classes["Call"], "MESSAGE_TYPE"))
+        elif typ == "dict":
+            prefix.append({})
+        elif typ in vals:
+            prefix.append(vals[typ])
+        else:
+            raise AnalysisError(f"{c.name}: documented element type {typ!r} not in the cell model")
+    return prefix
+
+
+def _payload_shape_cells(ctx, m, c, fmts):
+    """Messages with application payload: the documented forms are `... , Arguments|list[, ArgumentsKw|dict]` or `..., Payload|binary`.
+    parse() is evaluated cell-wise (sa.core.tiny) on the documented prefix followed by every small tail shape: it must produce the message
+    for exactly the documented tails (with the list / dict / octets in the matching constructor argument) and a ProtocolError otherwise."""
+    from ..core.tiny import Tiny, Sym, Buf
+    tails = [f for f in fmts if f[-1].split("|")[-1].strip() == "binary"]
+    if not tails:
+        return 0
+    fn = c.methods["parse"]
+    prefix = doc_prefix(ctx, m, c, fmts)
+    L, D, B = [Sym("positional")], {"k": Sym("value")}, Buf(0, 4)
+    shapes = [("nothing", [], "plain"), ("a list", [L], "args"), ("a list and a dict", [L, D], "kwargs"), ("octets", [B], "payload"),
+              ("octets and a dict", [B, D], None), ("octets and a list", [B, L], None), ("octets and an int", [B, 1], None), ("octets twice", [B, B], None),
+              ("a list and a list", [L, [Sym("x")]], None), ("a list and octets", [L, B], None), ("a list and None", [L, None], None),
+              ("a dict", [D], None), ("a string", ["abc"], None), ("an int", [1], None), ("a list, a dict and one more element", [L, D, 1], None),
+              ("octets and two more elements", [B, D, 1], None)]
+    adm = {"args": set(), "kwargs": set()}
+    for s_ in ast.walk(c.methods["__init__"].node):
+        if isinstance(s_, ast.Assert):
+            txt = norm.text(s_.test) or ""
+            for p_ in adm:
+                if txt.startswith(f"{p_} is None or type({p_}) in "):
+                    adm[p_] |= {x.id for x in ast.walk(s_.test) if isinstance(x, ast.Name) and x.id not in (p_, "type")}
+                elif txt.startswith(f"{p_} is None or type({p_}) == "):
+                    adm[p_].add(txt.rsplit("== ", 1)[1])
+    bad = []
+    for what, tail, expect in shapes:
+        r, made = parse_on(ctx, m, c, list(prefix) + list(tail))
+        perr = r[0] == "raise" and r[1].split("(")[0].strip().split(".")[-1] == "ProtocolError"
+        if expect is None:
+            if perr:
+                continue
+            # lenient zone: a class whose constructor admits further types for args / kwargs (str / bytes: pre-serialized forms) may accept such
+            # a tail -- but then faithfully: first element as args, second as kwargs, nothing taken as payload, nothing dropped
+            tn = lambda v_: "bytes" if isinstance(v_, Buf) else type(v_).__name__
+            faithful = r[0] == "return" and len(made) == 1 and len(tail) <= 2 and tn(tail[0]) in adm["args"] and (len(tail) < 2 or tn(tail[1]) in adm["kwargs"]) \
+                and made[0].get("args") is tail[0] and (made[0].get("kwargs") is (tail[1] if len(tail) > 1 else None)) and made[0].get("payload") is None
+            if not faithful:
+                bad.append(f"documented prefix followed by {what}: {'accepted as ' + str({k_: made[0].get(k_) for k_ in ('args', 'kwargs', 'payload')}) if r[0] == 'return' and made else r[0] + ' ' + str(r[1])[:40]}"
+                           f", expected ProtocolError")
+            continue
+        if r[0] != "return" or len(made) != 1:
+            bad.append(f"documented prefix followed by {what}: {r[0]} {str(r[1])[:60]}, expected the message")
+            continue
+        got = made[0]
+        want = {"args": L if expect in ("args", "kwargs") else None, "kwargs": D if expect == "kwargs" else None, "payload": B if expect == "payload" else None}
+        for k_, v_ in want.items():
+            g_ = got.get(k_)
+            if (v_ is None and g_ is not None) or (v_ is not None and g_ is not v_ and g_ != v_):
+                bad.append(f"documented prefix followed by {what}: constructor gets {k_}={g_!r}, expected {v_!r}")
+    ctx.ob(f"{c.name}.parse: after the documented prefix exactly the tails `list`, `list, dict` and `octets` (payload passthru) are accepted, each into its own "
+           f"constructor argument [{len(shapes)} cells]", not bad, "; ".join(bad[:2]), fn.loc())
+    return len(shapes)
 
 
 def rule_envelope(ctx, rule_id="C08.4-envelope"):
